@@ -148,9 +148,13 @@ def order_property(prop: str, lvl: str, repo: str, tier: str) -> CheckResult:
             res.add('ENUM-PER-ID', cname, 'message accessors used by merge', True, '')
         for f in enum_bad:
             res.add('ENUM-PER-ID', f['func'], f['construct'], False, f['detail'], f['file'], f['line'], f['witness'])
+    # "moves and swaps never add or lose an element, whatever the input": an exceptional exit after the first mutation loses/duplicates one
+    add_findings(res, results, {'VALIDATE-BEFORE-MUTATE'}, want=lambda c, f: want_c(c) and schema.ROLES[c][0] in ('MOVE', 'SWAP'),
+                 as_rule=lambda f: 'CONSERVE')
     add_findings(res, results, {'UNMODELLED-MUTATION'}, want, as_rule=lambda f: 'IDX')
     add_findings(res, results, {'SWAP-EXCHANGE'}, want, as_rule=lambda f: 'CONSERVE')
     add_findings(res, results, {'LIVE-ITER'}, want, as_rule=lambda f: 'IDX')
+    add_findings(res, results, {'DELETE-REMOVES'}, want, as_rule=lambda f: 'CONSERVE')
     if lvl == 'item':
         add_sites(res, {c: r for c, r in results.items() if want_c(c)}, 'item-lookup', 'STORY-SCOPED')
         add_findings(res, results, {'STORY-SCOPED'}, want)
@@ -245,6 +249,16 @@ def prop_C05(repo, tier):
     def as_rule(f):
         return 'MAY-ALIAS-REMOVE' if 'remove' in f['construct'] and f['construct'].startswith('ValueError') else 'VALIDATE-BEFORE-MUTATE'
     add_findings(res, results, {'VALIDATE-BEFORE-MUTATE'}, as_rule=as_rule)
+    # second pass: nothing is assumed about the message below its envelope (messageID + message element present)
+    from .analysis import envelope_results
+    for cname, r in envelope_results(repo).items():
+        if not r.get('ok'):
+            res.error('envelope-only pass: ' + r.get('error', cname))
+            continue
+        res.add('VALIDATE-BEFORE-MUTATE', f'{cname}.merge', 'all exceptional exits of the merge, message not assumed schema-shaped', True)
+        for f in r['findings']:
+            if f['rule'] == 'VALIDATE-BEFORE-MUTATE':
+                res.add(as_rule(f), f['func'], f['construct'], False, '[message not schema-shaped] ' + f['detail'], f['file'], f['line'], f['witness'])
     res.floors = {'VALIDATE-BEFORE-MUTATE': 40, 'MAY-ALIAS-REMOVE': 10}
     res.explanation = (
         'Static analysis: in the interprocedural path enumeration of every merge (callees inlined, loops iterated to a fix-point so '
@@ -484,8 +498,8 @@ def prop_C17(repo, tier):
             res.add('BODY-MAP', 'RunningOrder.script', 'concatenation of the stories\' scripts', kinds(ro_script) == kinds(st_script),
                     '' if kinds(ro_script) == kinds(st_script) else f'{ro_script} vs {st_script}')
         for f in acc['findings']:
-            if f['func'].split('.')[-1] in ('script', 'body', '_is_technical_note', '_get_tag_text'):
-                res.add('NO-BUILTIN-ESCAPE', f['func'], f['construct'], False, f['detail'], f['file'], f['line'], f['witness'])
+            if f['func'].split('.')[-1] in ('script', 'body', '_is_technical_note', '_get_tag_text') and f['rule'] != 'STALE-CACHE':
+                res.add(f['rule'], f['func'], f['construct'], False, f['detail'], f['file'], f['line'], f['witness'])
     for nt in null_one(res, repo, 'notetable'):
         for row in nt['rows']:
             got = [tuple(x) for x in row['got']]
@@ -707,6 +721,9 @@ def prop_C14(repo, tier):
         else:
             ok = ops <= {()}
         res.add('ROOT-WRITERS', f'{cname}.merge', 'operations on the root element', ok, '' if ok else f'root operations on normal return: {sorted(ops)}')
+        again = [o for o in r['outcomes'] if o.get('guard_present') and (o['rootops'] or o['mutated'])]
+        res.add('ROOT-WRITERS', f'{cname}.merge', 'no root operation once a completion record exists (at most one record)', not again,
+                '' if not again else f'on an already completed running order the merge still performs {[o["rootops"] for o in again]}')
         res.add('ENVELOPE-UNTOUCHED', f'{cname}.merge', 'effects on envelope children', True)
     add_findings(res, results, {'FRAME', 'IDX-DOMAIN', 'IDX-FRESH'}, want=lambda c, f: schema.ROLES[c][0] in ('ROREPLACE', 'END'),
                  as_rule=lambda f: 'ROOT-WRITERS')
